@@ -297,6 +297,40 @@ def op_class(op):
 
 
 # ---------------------------------------------------------------- driver
+HISTORY_TEXTS = [
+    b'x=x+1 x=x+1 x=x+1 x=x+1 x=x+1 x=x+1\n',                        # compressible
+    b'function _update60() x=x+1 x=x+1 x=x+1 x=x+1 end\n',           # compressible, compatibility suffix in play
+    b'y=y*2 y=y*2 y=y*2 y=y*2 y=y*2 y=y*2 y=y*2 y=y*2\n',            # compressible, another text
+    b'qz',                                                            # stored raw
+    b'',
+]
+
+
+def check_history(depth, res):
+    """Sequences of compress / code-area operations in ONE process: every call must give the answer a fresh process
+    gives, whatever was compressed before (same text again, another text, raw after compressed, ...).  Each step
+    runs the whole single-text oracle (reference decoder, picotool decoder, code-area writer and reader)."""
+    import itertools
+    n = len(HISTORY_TEXTS)
+    for ln in range(2, depth + 1):
+        for seq in itertools.product(range(n), repeat=ln):
+            for step, i in enumerate(seq):
+                before = len(res.violations)
+                r = ShardResult()
+                check_text(HISTORY_TEXTS[i], r, 'history')
+                res.evaluations += r.evaluations
+                res.transitions += 1
+                for sig, v in r.violations.items():
+                    res.violation('C05|history|after=%s|%s' % ('same-text' if step and seq[step - 1] == i else 'other-text' if step else 'nothing',
+                                                            sig.split('|', 1)[1]),
+                                  v[0] + ' [operation %d of the sequence of texts %r in one process]' % (step, list(seq)),
+                                  {'history': list(seq)})
+                if r.violations:
+                    return
+            res.nontriv(('history', seq))
+    res.outcome(('history', depth))
+
+
 def shards(tier, seed):
     L = BOUNDS[tier]['string_len']
     total = count_strings(L, 4)
@@ -310,6 +344,7 @@ def shards(tier, seed):
     items += [('trunc',)]
     items += [('capacity', d) for d in ((0, 1, 8) if tier == 'quick' else (-1, 0, 1, 4, 8, 9))]
     items += [('decoder', BOUNDS[tier]['decoder_depth'])]
+    items += [('history', 3 if tier == 'quick' else 4)]
     # long-running shards first
     items.sort(key=lambda it: {'capacity': 0, 'decoder': 1, 'window': 2}.get(it[0], 3))
     return items
@@ -318,6 +353,10 @@ def shards(tier, seed):
 def run_shard(item):
     res = ShardResult()
     kind = item[0]
+    if kind == 'history':
+        check_history(item[1], res)
+        res.sample({'family': 'history', 'texts': HISTORY_TEXTS[:3], 'sequences': 'all of length 2..%d over 5 texts' % item[1]})
+        return res
     if kind == 'strings':
         for idx in range(item[1], item[2]):
             t = nth_string(idx, ALPHA)
@@ -379,6 +418,9 @@ def run_shard(item):
 def replay(case):
     res = ShardResult()
     compress, _ = mods()
+    if 'history' in case:
+        check_history(len(case['history']), res)
+        return [(s, v[0]) for s, v in res.violations.items()]
     if case['kind'] == 'capacity':
         res.merge(run_shard(('capacity', case['d'])))
         return [(s, v[0]) for s, v in res.violations.items()]
